@@ -50,6 +50,14 @@ def gen(tier, rnd):
                 if not m: continue
                 c = cuts_for(rnd, len(m))
                 L.append('lim %d %s %s' % (lim, hx(m), ','.join(map(str, c)) or '-'))
+    # requests of many receive buffers (the transport reads 4096 bytes per recv): the whole request already waits in the socket when
+    # the worker gets to it, and must be read to its end on that one readiness event
+    for lim in ([40000] if tier == 'quick' else [33000, 40000, 70000, 100000]):
+        for d in (-1, 0, 1):
+            m = request(rnd, lim + d)
+            if m: L.append('lim %d %s -' % (lim, hx(m)))
+        m = request(rnd, lim - 1)
+        if m: L.append('lim %d %s %s' % (lim, hx(m), ','.join(map(str, sorted(rnd.randrange(1, len(m)) for _ in range(3))))))
     for _ in range(N):
         lim = rnd.choice(limits); size = rnd.randint(40, lim + 60)
         m = request(rnd, size)
@@ -162,7 +170,7 @@ def classify(ln, out):
     if w[0] == 'tom': return ('tom',) + tuple(w[1:]) + (canon(out),)
     return ('to', w[1], w[2], tuple(s.split(':')[0] for s in w[3].split(',')), canon(out))
 
-RULE = ('sizes: well-formed requests (body-less with a padded header, Content-Length, chunked) of exactly limit-2..limit+2 and +17 bytes for limits 64..8192, written to a live endpoint in 1..7 pieces, plus seeded sizes; '
+RULE = ('sizes: well-formed requests (body-less with a padded header, Content-Length, chunked) of exactly limit-2..limit+2 and +17 bytes for limits 64..8192, written to a live endpoint in 1..7 pieces, plus seeded sizes; a limit of 40000 (thorough: 33000 to 100000) bytes with requests of limit-1, limit, limit+1 sent at once (many receive buffers waiting in the socket); '
         'time-outs: (header, body) settings 1000/1000, 1000/2500, 2500/1000 (thorough: more), stalls after connect, inside the request line, inside the headers, inside the body, durations 150 ms (in time) and deadline+1200 ms (late), '
         'a body slower than the header time-out but within the body time-out; two requests on one connection (with and without Connection: keep-alive) whose delays add up to more than the time-out while each is in time, and a late second request; several connections on one worker (stalled and partial ones opened before, between and after busy keep-alive ones): each is judged on its own. Outcome (status, handler ran, closed) compared with the parser+time-out model; direct oracle on status/handler/closing and on the time of the 408. '
         'non-trivial = distinct (kind, setting, size offset / stall pattern, outcome)')
